@@ -1,7 +1,11 @@
 (* C05 -- failures: keep-going still builds everything that does not depend on a failed target,
    dependants of a failed target never run, fail-fast starts nothing new.
    Only statements, each closed by [exact] of a lemma from Walker_proofs.v. *)
+From Coq Require Import List String.
 From Grog Require Import Graph Walker Walker_proofs.
+From Grog Require Str Label HashKey Build Build_ideal Build_lift_proofs Build_examples.
+Import ListNotations.
+Local Open Scope string_scope.
 
 (* keep-going, no outer cancellation: a node none of whose transitive dependencies failed has been
    run to completion when the walk ends *)
@@ -43,3 +47,43 @@ Theorem C05_nonvacuous :
     st s 0 = Ok /\ st s 1 = Failed /\ st s 2 = Ok /\ st s 3 = Skipped.
 Proof. exact c05_example. Qed.
 Print Assumptions C05_nonvacuous.
+
+(* ------------------------------------------------------------------ never cached (Build.v) *)
+(* A target that failed -- non-zero exit before or after writing, declared output missing, output
+   check failing after execution, or a dependency without an output hash -- leaves the cache
+   (results, blobs, taints) exactly as its task found it: there is no entry to serve, so the next
+   build attempts it again (a hit needs a stored result: C13_hit_needs).  For every digest,
+   snapshot, selection, workspace and cache; mode load_outputs=all. *)
+Theorem C05_failed_not_cached : forall (H : Str.str -> Str.str) cfg s roots w c,
+  Build.cfg_mode cfg = Build.LAll ->
+  forall i t, i < length (Build.s_nodes s) -> Build.node_at s i = Some (Build.NTarget t) ->
+  nth i (Build.br_status (Build.build H cfg s roots w c)) Build.TNone = Build.TFailed ->
+  Build.b_cache (Build_ideal.build_prefix H cfg s roots w c (S i)) =
+  Build.b_cache (Build_ideal.build_prefix H cfg s roots w c i).
+Proof. exact Build_lift_proofs.failed_not_cached. Qed.
+Print Assumptions C05_failed_not_cached.
+
+(* a target skipped because a dependency failed (or fail-fast fired) is neither run nor cached *)
+Theorem C05_skipped_not_run_not_cached : forall (H : Str.str -> Str.str) cfg s roots w c,
+  Build.cfg_mode cfg = Build.LAll ->
+  forall i t, i < length (Build.s_nodes s) -> Build.node_at s i = Some (Build.NTarget t) ->
+  nth i (Build.br_status (Build.build H cfg s roots w c)) Build.TNone = Build.TSkipped ->
+  Build.b_cache (Build_ideal.build_prefix H cfg s roots w c (S i)) =
+  Build.b_cache (Build_ideal.build_prefix H cfg s roots w c i) /\
+  Build.b_exec (Build_ideal.build_prefix H cfg s roots w c (S i)) =
+  Build.b_exec (Build_ideal.build_prefix H cfg s roots w c i).
+Proof. exact Build_lift_proofs.skipped_not_cached_not_run. Qed.
+Print Assumptions C05_skipped_not_run_not_cached.
+
+(* non-vacuity (digest = identity): each of the four failure causes fails a, skips its dependant b,
+   exits non-zero and leaves the same result keys as before; with fail-fast nothing else starts *)
+Theorem C05_cache_nonvacuous :
+  Forall (fun beh => Build.br_status (Build_examples.fail_run beh) = [Build.TFailed; Build.TSkipped; Build.TExecuted] /\
+                     Build.br_ok (Build_examples.fail_run beh) = false /\
+                     map fst (Build.c_results (Build.br_cache (Build_examples.fail_run beh))) =
+                     map fst (Build.c_results (Build.br_cache Build_examples.r2)))
+         [Build.BFail; Build.BFailAfter; Build.BSkipOutput 0; Build.BBreakCheck] /\
+  (Build.br_status Build_examples.r6 = [Build.TFailed; Build.TSkipped; Build.TSkipped] /\
+   Build.br_exec Build_examples.r6 = [Build_examples.L "a"]).
+Proof. exact (conj Build_examples.ex_failures Build_examples.ex_failfast). Qed.
+Print Assumptions C05_cache_nonvacuous.
